@@ -30,7 +30,7 @@ vars == <<ro, last>>
 
 StoryKeys == { <<"S", n, lay>> : n \in 0..MaxStories, lay \in Layouts }
 ItemKeys  == { <<"I", n, il>>  : n \in 0..MaxItems,   il \in ILayouts }
-MetaKeys  == { <<"M", 0, v>>   : v \in {"none", "extA", "extAB"} }
+MetaKeys  == { <<"M", 0, v>>   : v \in {"none", "extA", "extAB", "extAA"} }
 
 Keys == (IF Classes \cap StoryClasses # {} THEN StoryKeys ELSE {})
         \cup (IF Classes \cap ItemClasses # {} THEN ItemKeys ELSE {})
